@@ -4,7 +4,7 @@ from fractions import Fraction
 from ..core import *
 from .. import build as B
 from .. import encode as E
-from .props_common import sqrt_stub_bv, sqrt_stub_int, SQRT_SYM, SQRTF
+from .props_common import sqrt_stub_bv, sqrt_stub_int, sqrt_stub_int_floor, SQRT_SYM, SQRTF
 
 UNITS = [B.Unit("hypot", [("a", "fx"), ("b", "fx")], "i64", "return hypot(a, b).v;"),
          B.Unit("hypot_rev", [("a", "fx"), ("b", "fx")], "i64", "return hypot(b, a).v;"),
@@ -101,10 +101,33 @@ def run(R):
             S = ai * ai + bi * bi
             rm2 = z3.If(r >= 2, r - 2, 0)
             goal = z3.And(r >= 0, r != NAN, rm2 * rm2 <= S, S <= (r + 2) * (r + 2))
-        R.verify("hypot/acc/%s" % name, [ai, bi], [c], dom, goal, also_ub=True, exact=exact_property,
-                 portfolio=("z3", "cvc5"), timeout=300 if R.quick() else 1200,
-                 note=("relative error <= 1.5e-4" if kind == "rel" else "absolute error <= 2 ulp") +
-                      ", result non-negative and not NaN, no UB; larger operand of bit length %d" % L)
+        ob = R.verify("hypot/acc/%s" % name, [ai, bi], [c], dom, goal, also_ub=True, exact=exact_property,
+                      portfolio=("z3", "cvc5"), timeout=300 if R.quick() else 1200,
+                      note=("relative error <= 1.5e-4" if kind == "rel" else "absolute error <= 2 ulp") +
+                           ", result non-negative and not NaN, no UB; larger operand of bit length %d" % L)
+
+        def exact_ob(L=L, dom=dom, name=name, kind=kind):
+            # the goal above is a sufficient condition; when its models do not reproduce, the property itself is asked for
+            # the abacus algorithm (sqrt = floor of the root, proved in C13) and replayed on the abacus build
+            ce = R.call(h, "hypot", [ai, bi], opts=E.Opts(int_mode=True, stubs={SQRT_SYM: sqrt_stub_int_floor},
+                                                           int_nowrap=True, clz_const=64 - L))
+            r2 = ce.out
+            S = ai * ai + bi * bi
+            if kind == "rel":
+                n1, n2, d2 = (EPS_DEN + EPS_NUM) ** 2, (EPS_DEN - EPS_NUM) ** 2, EPS_DEN ** 2
+                g2 = z3.And(r2 >= 0, r2 != NAN, r2 * r2 * d2 <= S * n1, r2 * r2 * d2 >= S * n2)
+            else:
+                rm = z3.If(r2 >= 2, r2 - 2, 0)
+                g2 = z3.And(r2 >= 0, r2 != NAN, rm * rm <= S, S <= (r2 + 2) * (r2 + 2))
+            ab = ("-DFIXEDMATH_ENABLE_SQRT_ABACUS_ALGO",)
+            o2 = Ob("hypot/acc/%s" % name, "verify", [ai, bi], [ce], dom, g2, exact=exact_property,
+                    portfolio=("z3", "cvc5"), timeout=300 if R.quick() else 1200,
+                    natives=[("g++", "-O0", ab), ("clang++-14", "-O2", ab)],
+                    note="the property itself (not the sufficient condition) under the abacus square root")
+            o2.tag = "exact-abacus"
+            return o2
+        if ob is not None:
+            ob.fallback = exact_ob
     cw = R.call(h, "hypot", [ai, bi], opts=E.Opts(int_mode=True, stubs={SQRT_SYM: sqrt_stub_int}, int_nowrap=True,
                                                    clz_const=64 - 41))
     R.witness("hypot/reach-scaled", [ai, bi], [cw], z3.And(base, ai >= (1 << 40), ai < (1 << 41), bi >= (1 << 39)),
